@@ -1,0 +1,160 @@
+//! Verification hook H2 (region arithmetic). Compiled only with `--cfg jxl_oxide_verif`.
+//!
+//! Thin wrappers that expose the crate-private region helpers to the external correspondence
+//! harness, and two probes that run the real `blend::blend` / `blend::patch` on synthetic grids
+//! whose cells encode their own coordinates, so that the region arithmetic inside those
+//! functions can be observed through the cells they write. Nothing here changes behaviour.
+use std::sync::{Arc, Mutex};
+
+use jxl_frame::{Frame, FrameHeader, data::GlobalModular, data::PatchRef};
+use jxl_grid::AlignedGrid;
+use jxl_image::ImageHeader;
+use jxl_modular::Sample;
+use jxl_threadpool::JxlThreadPool;
+
+use crate::{
+    FrameRender, FrameRenderHandle, ImageBuffer, ImageWithRegion, IndexedFrame, Reference, Region,
+    Result,
+};
+
+pub fn image_region_to_frame(frame: &Frame, image_region: Region, ignore_lf_level: bool) -> Region {
+    crate::util::image_region_to_frame(frame, image_region, ignore_lf_level)
+}
+
+pub fn apply_orientation_to_image_region(
+    image_header: &ImageHeader,
+    image_region: Region,
+) -> Region {
+    crate::util::apply_orientation_to_image_region(image_header, image_region)
+}
+
+pub fn pad_lf_region(frame_header: &FrameHeader, frame_region: Region) -> Region {
+    crate::util::pad_lf_region(frame_header, frame_region)
+}
+
+pub fn pad_upsampling(
+    image_header: &ImageHeader,
+    frame_header: &FrameHeader,
+    frame_region: Region,
+) -> Region {
+    crate::util::pad_upsampling(image_header, frame_header, frame_region)
+}
+
+pub fn pad_color_region(
+    image_header: &ImageHeader,
+    frame_header: &FrameHeader,
+    frame_region: Region,
+) -> Region {
+    crate::util::pad_color_region(image_header, frame_header, frame_region)
+}
+
+pub fn compute_modular_region<S: Sample>(
+    frame_header: &FrameHeader,
+    gmodular: &GlobalModular<S>,
+    region: Region,
+    is_lf: bool,
+) -> Region {
+    crate::modular::compute_modular_region(frame_header, gmodular, region, is_lf)
+}
+
+pub fn container_aligned(region: Region, grid_dim: u32) -> Region {
+    region.container_aligned(grid_dim)
+}
+
+pub fn mirror(offset: isize, len: usize) -> usize {
+    crate::util::mirror(offset, len)
+}
+
+/// Result of a probe: the region attached to the produced channel and its cells (row-major).
+pub struct Probe {
+    pub region: Region,
+    pub cells: Vec<f32>,
+}
+
+fn coded_grid(region: Region, sign: f32) -> Result<ImageBuffer> {
+    let mut g =
+        AlignedGrid::<f32>::with_alloc_tracker(region.width as usize, region.height as usize, None)?;
+    for (i, v) in g.buf_mut().iter_mut().enumerate() {
+        *v = sign * (i as f32 + 1.0);
+    }
+    Ok(ImageBuffer::F32(g))
+}
+
+/// Runs the real `blend::blend` for one single-channel frame.
+///
+/// * `new_frame` supplies `x0, y0, width, height`, `blending_info` (mode should be `Replace`).
+/// * the new frame's grid covers `new_grid_region` (frame coordinates); cell `i` (row-major)
+///   holds `i + 1`.
+/// * `base`: the frame in the reference slot named by `blending_info.source` and the region
+///   its (already blended) grid covers in *its own* frame coordinates; cell `i` holds `-(i + 1)`.
+///   The base frame header should have `resets_canvas = true`, `save_before_ct = true` so that
+///   its own composition is skipped.
+///
+/// Returns the output channel: cells are `0` (fresh canvas), negative (kept from base) or
+/// positive (written from the new frame).
+pub fn blend_probe(
+    image_header: &ImageHeader,
+    new_frame: &Frame,
+    new_grid_region: Region,
+    output_frame_region: Region,
+    base: Option<(Frame, Region)>,
+) -> Result<Probe> {
+    let pool = JxlThreadPool::none();
+    let mut new_grid = ImageWithRegion::new(1, None);
+    new_grid.append_channel(coded_grid(new_grid_region, 1.0)?, new_grid_region);
+
+    let mut refs: [Option<Reference<i32>>; 4] = [None, None, None, None];
+    if let Some((base_frame, base_region)) = base {
+        let mut base_grid = ImageWithRegion::new(1, None);
+        base_grid.append_channel(coded_grid(base_region, -1.0)?, base_region);
+        let slot = Mutex::new(Some(base_grid));
+        let frame = Arc::new(IndexedFrame::new(base_frame, 0));
+        let render_op: crate::state::RenderOp<i32> = Arc::new(move |_state, _region| {
+            match slot.lock().unwrap().take() {
+                Some(grid) => FrameRender::Done(grid),
+                None => FrameRender::Err(crate::Error::IncompleteFrame),
+            }
+        });
+        let handle = FrameRenderHandle::new(
+            Arc::clone(&frame),
+            Region::empty(),
+            render_op,
+            [None, None, None, None],
+        );
+        let source = new_frame.header().blending_info.source as usize;
+        refs[source] = Some(Reference {
+            frame,
+            image: Arc::new(handle),
+        });
+    }
+
+    let out = crate::blend::blend(
+        image_header,
+        refs,
+        new_frame,
+        &mut new_grid,
+        output_frame_region,
+        &pool,
+    )?;
+    let region = out.regions_and_shifts()[0].0;
+    let cells = out.buffer()[0].as_float().unwrap().buf().to_vec();
+    Ok(Probe { region, cells })
+}
+
+/// Runs the real `blend::patch` on a single-channel canvas covering `base_region` (cells
+/// `-(i + 1)`) with a single-channel reference grid covering `ref_region` (cells `i + 1`).
+pub fn patch_probe(
+    image_header: &ImageHeader,
+    base_region: Region,
+    ref_region: Region,
+    patch_ref: &PatchRef,
+) -> Result<Probe> {
+    let mut base_grid = ImageWithRegion::new(1, None);
+    base_grid.append_channel(coded_grid(base_region, -1.0)?, base_region);
+    let mut ref_grid = ImageWithRegion::new(1, None);
+    ref_grid.append_channel(coded_grid(ref_region, 1.0)?, ref_region);
+    crate::blend::patch(image_header, &mut base_grid, &ref_grid, patch_ref)?;
+    let region = base_grid.regions_and_shifts()[0].0;
+    let cells = base_grid.buffer()[0].as_float().unwrap().buf().to_vec();
+    Ok(Probe { region, cells })
+}
